@@ -91,6 +91,8 @@ def run(prop, tier, seed):
         gens = [("g1", cfg(acts="ActsC05n", maxops=ex, hist=True, onabort=onabort, initws="IW3" if quick else "IWq", upd="UI2bad", trg="TN2"), "K2", None, None),
                 ("g2", cfg(params="P3e", kind="K3e", dom="D3e", wc="WCe", initws="IWe", acts="ActsC05n", upd="UIebad", trg="TNe", maxops=ex, hist=True, onabort=onabort), "K3e", None, None),
                 ("g3", cfg(params="P3c", kind="K3c", dom="D3c", wc="WC1", initws="IW1", acts="ActsC05n", upd="UIc", trg="TNc", maxops=ex, hist=True, onabort=onabort), "K3c", None, None),
+                ("g4", cfg(acts="ActsNest", maxops=4, maxstack=7, maxfaults=2, hist=True, onabort=onabort, maxw=3, wc="WCnest", initws="IWnest", dom="D2ok", upd="UI2", trg="TN2"), "K2", None, None),
+                ("g5", cfg(params="Ps", kind="Ks", dom="Ds", acts="ActsNest", maxops=4, maxstack=7, maxfaults=2, hist=True, onabort=onabort, maxw=3, wc="WCsnest", initws="IWsnest", upd="UIs", trg="TNs"), "Ks", None, None),
                 ("s1", cfg(acts="ActsC05", maxops=7, maxstack=7, maxfaults=3, hist=True, onabort=onabort, maxw=3, wc="WC5", initws="IW5", upd="UI2bad", trg="TN2"), "K2", nsim, 120),
                 ("s2", cfg(params="P3e", kind="K3e", dom="D3e", wc="WCe", initws="IWe", acts="ActsC05", upd="UIebad", trg="TNe", maxops=6, maxstack=7, maxfaults=3, maxw=3, hist=True, onabort=onabort), "K3e", nsim // 2, 120)]
         nt = "fault"
